@@ -111,6 +111,59 @@ def main():
         if old == new:
             errs.append("XSLTEngineImpl::cloneToResultTree: ATTRIBUTE_NODE case not recognised")
         flags["copyAttrNs"] = new
+    # --- round 5 sites
+    k = en.find("XSLTEngineImpl::flushPending()")
+    b = body_of(en, "XSLTEngineImpl::flushPending()")
+    if b is None:
+        errs.append("XSLTEngineImpl::flushPending not found")
+    else:
+        n = norm(b)
+        new = "removeReplacedPendingAttributes(); AttributeListImpl& thePendingAttributes = getPendingAttributesImpl(); getFormatterListenerImpl()->startElement(" in n
+        old = "m_cdataStack.push_back(isCDataResultElem(thePendingElementName)); } AttributeListImpl& thePendingAttributes = getPendingAttributesImpl(); getFormatterListenerImpl()->startElement(" in n
+        if old == new:
+            errs.append("XSLTEngineImpl::flushPending: start tag delivery not recognised")
+        if new:
+            rb = body_of(en, "XSLTEngineImpl::removeReplacedPendingAttributes()")
+            if rb is None or "if (theEarlierNamespace != 0 && *theEarlierNamespace == *theLaterNamespace)" not in norm(rb) \
+                    or "thePendingAttributes.removeAttribute(theNameToRemove.c_str());" not in norm(rb):
+                errs.append("XSLTEngineImpl::removeReplacedPendingAttributes not recognised")
+        ab = body_of(en, "XSLTEngineImpl::addResultAttribute( AttributeListImpl&") or body_of(en, "XSLTEngineImpl::addResultAttribute(")
+        an = norm(ab) if ab else ""
+        add_new = ("if (indexOf(aname, XalanUnicode::charColon) < aname.length() && startsWith(aname, DOMServices::s_XMLNamespaceWithSeparator) == false) { attList.removeAttribute(aname.c_str()); } attList.addAttribute(" in an)
+        add_old = "if (fExcludeAttribute == false) { attList.addAttribute(" in an
+        if add_new == add_old or add_new != new:
+            errs.append("XSLTEngineImpl::addResultAttribute / flushPending: attribute replacement not recognised (both or neither expected)")
+        flags["dedupExpanded"] = new
+    b = body_of(el, "ElemLiteralResult::evaluateAVTs(")
+    if b is None:
+        errs.append("ElemLiteralResult::evaluateAVTs not found")
+    else:
+        n = norm(b)
+        old = "avt->evaluate(theStringedValue, *this, executionContext); executionContext.addResultAttribute(theName, theStringedValue); theStringedValue.clear();" in n
+        new = ("theNamespace = getNamespacesHandler().getNamespace(thePrefix); theBoundNamespace = executionContext.getResultNamespaceForPrefix(thePrefix);" in n
+               and "if (theNamespace == 0 || theBoundNamespace == 0 || *theNamespace == *theBoundNamespace) { executionContext.addResultAttribute(theName, theStringedValue); }" in n
+               and "executionContext.getResultPrefixForNamespace(*theNamespace); if (theOtherPrefix != 0 && theOtherPrefix->empty() == false)" in n)
+        if old == new:
+            errs.append("ElemLiteralResult::evaluateAVTs not recognised")
+        flags["literalAttrResolve"] = new
+    nhc = open(os.path.join(REPO, "src/xalanc/XSLT/NamespacesHandler.cpp"), encoding="utf-8", errors="replace").read()
+    b1 = body_of(nhc, "NamespacesHandler::getNamespace(const XalanDOMString& thePrefix) const")
+    if b1 is None:
+        b1 = body_of(nhc, "NamespacesHandler::getNamespace(")
+    b2 = body_of(nhc, "NamespacesHandler::copyExcludeResultPrefixes(")
+    if b1 is None or b2 is None:
+        errs.append("NamespacesHandler::getNamespace / copyExcludeResultPrefixes not found")
+    else:
+        n1, n2 = norm(b1), norm(b2)
+        old = ("findByPrefix(m_excludedResultPrefixes, thePrefix); if (theNamespace != 0) { return &theNamespace->getURI(); } else { return findNamespace(m_namespaceDeclarations, thePrefix); }" in n1
+               and "if (findByPrefix(m_excludedResultPrefixes, (*i).getPrefix()) == 0) { m_excludedResultPrefixes.push_back(*i); }" in n2)
+        new = ("findNamespace(m_namespaceDeclarations, thePrefix); if (theURI != 0) { return theURI; }" in n1
+               and "m_excludedResultPrefixes.rbegin();" in n1
+               and "if (theEntry == 0 || theEntry->getURI() != (*i).getURI()) { theInherited.push_back(*i); }" in n2
+               and "theInherited.insert( theInherited.end(), m_excludedResultPrefixes.begin(), m_excludedResultPrefixes.end()); m_excludedResultPrefixes.swap(theInherited);" in n2)
+        if old == new:
+            errs.append("NamespacesHandler::getNamespace / copyExcludeResultPrefixes not recognised")
+        flags["handlerOwnFirst"] = new
     if errs:
         print("\n".join(errs))
         return 1
